@@ -938,6 +938,43 @@ class Unroll(ast.NodeTransformer):
         return isinstance(e, ast.Constant) and isinstance(
             e.value, (int, float)) and not isinstance(e.value, bool)
 
+    @staticmethod
+    def _structure_continues(body):
+        """the body with its top-level `if c: continue` guards turned into
+        `if not c: <rest>`; None if there is none / another continue stays"""
+        hit = False
+
+        def conv(stmts):
+            nonlocal hit
+            for i, st in enumerate(stmts):
+                if isinstance(st, ast.If) and not st.orelse and len(
+                        st.body) == 1 and isinstance(
+                        st.body[0], ast.Continue):
+                    hit = True
+                    rest = conv(stmts[i + 1:])
+                    if not rest:
+                        return list(stmts[:i])
+                    new = ast.If(test=_negate(clone(st.test)), body=rest,
+                                 orelse=[])
+                    ast.copy_location(new, st)
+                    ast.fix_missing_locations(new)
+                    return list(stmts[:i]) + [new]
+            return list(stmts)
+        out = conv(body)
+        if not hit:
+            return None
+        inner_loops = set()
+        for s_ in out:
+            for lp in ast.walk(s_):
+                if isinstance(lp, (ast.For, ast.While)):
+                    inner_loops |= {id(x) for b in lp.body + lp.orelse
+                                    for x in ast.walk(b)}
+        for s_ in out:
+            for n in ast.walk(s_):
+                if isinstance(n, ast.Continue) and id(n) not in inner_loops:
+                    return None
+        return out
+
     def visit_For(self, node):
         self.generic_visit(node)
         it = node.iter
@@ -951,6 +988,12 @@ class Unroll(ast.NodeTransformer):
                 not all(self._item_ok(e) for e in it.elts):
             return node
         targets = target_names(node.target)
+        # `if c: continue` guards at the top of the body -> `if not c: rest`
+        body_ = self._structure_continues(node.body)
+        if body_ is not None:
+            node = ast.copy_location(ast.For(
+                target=node.target, iter=node.iter, body=body_, orelse=[],
+                type_comment=None), node)
         for n in ast.walk(ast.Module(body=node.body, type_ignores=[])):
             if isinstance(n, (ast.Break, ast.Continue, ast.FunctionDef,
                               ast.Lambda)):
@@ -975,6 +1018,8 @@ class Unroll(ast.NodeTransformer):
             for st in node.body:
                 new = sub.visit(clone(st))
                 ast.copy_location(new, st)
+                # (which pass of which loop the statement stands for)
+                new._unroll = (id(node), len(out) // max(1, len(node.body)))
                 out.append(new)
         for st in out:
             ast.fix_missing_locations(st)
@@ -2390,6 +2435,9 @@ def normalize_module(tree: ast.Module, extern=None) -> ast.Module:
                 n2.split_tuple_assigns(n)
         tree = n2.ItemsLoops().visit(tree)
         tree = Unroll().visit(tree)
+        for n in ast.walk(tree):
+            if isinstance(n, ast.FunctionDef):
+                n2.split_unrolled_locals(n)
         if _round and ast.dump(tree) == before:
             break
         # (a second round folds helpers that only became direct calls
